@@ -19,7 +19,7 @@ open Tephra Tephra.Spec Tephra.ListRefine Tephra.BracketRefine Tephra.BracketRef
 open Tephra.PegRefine Tephra.ListLocal
 
 /-- table scanner with the harness filter table -/
-def tabM (tab : List Nat) : LexEnv Nat Tok := ⟨scanTab tab, passesMask⟩
+def tabM (tab : List Nat) : LexEnv Nat Tok := ⟨scanTab tab, passesMask, fun _ b => ⟨b, 0, b⟩⟩
 
 theorem tabM_ok (tab : List Nat) (m : Metrics) (len : Nat) (hlen : tab.length ≤ len) : ScanOK (tabM tab) m len := by
   constructor
